@@ -9,9 +9,14 @@
 From EG Require Import Base.Prelude Model.Geometry Model.Target Model.TargetOk Proofs.Geometry Proofs.Target Proofs.TargetOk.
 
 (* building the stack (Clipped::new, Cropped::new, every bounding_box()) and lowering any call through it *)
+(* stack_ok = the form the extracted model evaluates (colour streams dropped); stack_ok_real = the same
+   recursion over the real lowered calls; they are equal (C08_targets_stack_ok_is_real) *)
 Theorem C08_targets_stack_total : forall st bb c,
-  display_scale st bb c -> build_ok st bb = true /\ stack_ok st bb c = true.
+  display_scale st bb c -> build_ok st bb = true /\ stack_ok st bb c = true /\ stack_ok_real st bb c = true.
 Proof. exact stack_total_display_scale. Qed.
+
+Theorem C08_targets_stack_ok_is_real : forall st bb c, stack_ok st bb c = stack_ok_real st bb c.
+Proof. exact stack_ok_is_real. Qed.
 
 (* the general form: magnitudes D (coordinates), S (extents), depth L *)
 Theorem C08_targets_stack_total_general : forall D S L st bb,
@@ -19,7 +24,7 @@ Theorem C08_targets_stack_total_general : forall D S L st bb,
   Z.of_nat (length st) <= L ->
   forall c C, call_small C S c -> 0 <= C ->
   3 * (C + Z.of_nat (length st) * ((L + 2) * D)) + S <= lim ->
-  stack_ok st bb c = true.
+  stack_ok st bb c = true /\ stack_ok_real st bb c = true.
 Proof. exact stack_ok_small. Qed.
 
 Theorem C08_targets_build_total_general : forall D S L st bb,
